@@ -75,6 +75,7 @@ type c20HistResult struct {
 	FailAt  int // number of events applied when the first failure was seen
 	Dials   []c20Dial
 	MaxIdx  int // largest retry index whose wait was checked
+	IdxCount [12]int // gaps checked per retry index (capped at 11)
 	Checked int // gaps checked against the lower bound
 	Resets  int // short gaps excused by ResetConnectBackoff
 	Succ    int // successful connections
@@ -163,6 +164,7 @@ func c20RunHistory(t *testing.T, cc20 c20ChanCfg, hist []int) (res c20HistResult
 						if lastFailIdx > res.MaxIdx {
 							res.MaxIdx = lastFailIdx
 						}
+						res.IdxCount[min(lastFailIdx, 11)]++
 						if afterSuccess {
 							res.PostOK++
 						}
@@ -306,7 +308,7 @@ func TestVerif_C20_ChannelPacing(t *testing.T) {
 	var wg sync.WaitGroup
 	var smu sync.Mutex
 	var evals, nontriv, gaps, resets, postok int64
-	maxIdx := 0
+	var idxCount [12]int64
 	sampled := 0
 	// Histories run strictly one after the other in a process (parallelism comes
 	// from worker processes with GOMAXPROCS=1, see leg.json): go1.25.0 allocates
@@ -354,8 +356,8 @@ func TestVerif_C20_ChannelPacing(t *testing.T) {
 				gaps += int64(res.Checked)
 				resets += int64(res.Resets)
 				postok += int64(res.PostOK)
-				if res.MaxIdx > maxIdx {
-					maxIdx = res.MaxIdx
+				for i, n := range res.IdxCount {
+					idxCount[i] += int64(n)
 				}
 				if cfg.Name == "J0" {
 					// fully deterministic config: detailed outcome classes
@@ -389,8 +391,11 @@ func TestVerif_C20_ChannelPacing(t *testing.T) {
 	r.AddInt(P, "chan_redial_gaps_checked", gaps)
 	r.AddInt(P, "chan_short_gaps_excused_by_reset", resets)
 	r.AddInt(P, "chan_gaps_checked_for_first_failure_after_success", postok)
-	r.Set(P, "chan_max_retry_index_checked", fmt.Sprint(maxIdx))
-	r.Set(P, "chan_history_depth", fmt.Sprint(depth))
+	for i, n := range idxCount {
+		if n > 0 {
+			r.AddInt(P, fmt.Sprintf("chan_gaps_checked_at_retry_index_%02d", i), n)
+		}
+	}
 	lo3, hi3 := c20MinMax(c20ChanCfgs[1].Cfg, 3)
 	r.Sample(P, map[string]any{"config": "J0.2", "retry_index": 3, "allowed_wait": fmt.Sprintf("[%v, %v]", lo3, hi3), "big": new(big.Int).SetInt64(int64(hi3)).String()})
 	r.Assume(P, "channel leg: one address, default pick_first, passthrough resolver, dials fail or succeed instantly; pick_first's automatic re-connect out of TRANSIENT_FAILURE is assumed (it makes the UPPER bound observable, which is how 'the index resets after a successful connection' is checked)")
